@@ -24,6 +24,7 @@ func runC17(c *Ctx) {
 		c.checkNormaliserSums("normaliser-sum", "distance/protein")
 	}
 	c.checkLikelihoodSumComplete("likelihood-sum-complete")
+	c.checkKeptResults("result-not-kept", "distance/protein", "distance/dna", "models")
 	c.checkResidueIndexTables("residue-index-tables")
 	c.checkEigenTerms("eigen-terms")
 	c.checkDenseSymmetry()
